@@ -56,7 +56,7 @@ def _pc_point(ids, pc):
 
 
 def _check_linear_path(res, cfg, facts, in_specs, impl, ref, tau_rel=1e-9, allowed_raise=None, raise_is_skip=False,
-                       validate_tol=1e-10, max_sat=3, timeout_ms=10000, what='output', real_pw=None, sym_pw=None, seed=1, oracle_offset=False):
+                       validate_tol=1e-10, max_sat=3, timeout_ms=60000, what='output', real_pw=None, sym_pw=None, seed=1, oracle_offset=False):
     rt = symtorch.real_torch()
     rng = np.random.default_rng(seed)
     rpw = real_pw or symtorch.real()
@@ -239,7 +239,9 @@ def _check_linear_path(res, cfg, facts, in_specs, impl, ref, tau_rel=1e-9, allow
         dd = first + Poly.var(int(all_ids[0])) * Fraction(1, 10 ** 6) * max(1, int(scale))
         cs = smt.Solver(stats=smt.Stats()); cs.keep_sample = False
         v, m = cs.decide(dd, tau)
-        if v != 'sat' or abs(dd.evalq({a: m.get(a, Fraction(0)) for a in dd.atoms()})) <= tau / 2:
+        if v == 'unknown':
+            res.notes.append('canary query timed out (not counted)')
+        elif v != 'sat' or abs(dd.evalq({a: m.get(a, Fraction(0)) for a in dd.atoms()})) <= tau / 2:
             res.status = 'error'; res.trace = 'canary query was not refuted (%s)' % v
             return None
     # ---- replay ---------------------------------------------------------------------------------
@@ -292,7 +294,7 @@ def check_same(res, cfg, facts, in_specs, impl_a, impl_b, **kw):
     return core.run_paths(res, lambda: _check_same_path(res, cfg, facts, in_specs, impl_a, impl_b, **kw))
 
 
-def _check_same_path(res, cfg, facts, in_specs, impl_a, impl_b, tau_rel=1e-9, what='outputs', max_sat=2, seed=2, timeout_ms=10000,
+def _check_same_path(res, cfg, facts, in_specs, impl_a, impl_b, tau_rel=1e-9, what='outputs', max_sat=2, seed=2, timeout_ms=60000,
                      allow_both_raise=True, scale=None, on_path=None):
     rt = symtorch.real_torch()
     rng = np.random.default_rng(seed)
@@ -420,7 +422,7 @@ def _check_same_path(res, cfg, facts, in_specs, impl_a, impl_b, tau_rel=1e-9, wh
             dd = d + Poly.var(at[0]) * Fraction(1, 10 ** 6) * max(1, int(sc))
             cs = smt.Solver(stats=smt.Stats()); cs.keep_sample = False
             v, m = cs.decide(dd, tau)
-            if v != 'sat':
+            if v == 'unsat':
                 res.status = 'error'; res.trace = 'canary query was not refuted (%s)' % v; return None
     for na, k, e, model in sats:
         xv = [core.model_array(model, i) for i in ids]
